@@ -880,7 +880,19 @@ class Emit:
         V = s.val
         chk = s.cfg.get('checks', True)
         if op in ('add', 'sub', 'mul', 'udiv', 'sdiv', 'urem', 'srem', 'and', 'or', 'xor', 'shl', 'lshr', 'ashr', 'fadd', 'fsub', 'fmul', 'fdiv', 'frem'):
-            t = I['ty']; a = V(I['a'], t); b = V(I['b'], t)
+            t = I['ty']
+            if op == 'sub' and isinstance(t, Int) and t.n == 64:
+                # pointer difference: sub(ptrtoint p, ptrtoint q) -> vp_ptrdiff(p, q) (same value as the two address-model calls; lets the
+                # checker fold the difference of two pointers into one object, e.g. std::vector::size(), to a constant)
+                D = s.defs()
+                def pti(v):
+                    if v[0] == 'ref' and v[1] in D and D[v[1]]['op'] == 'ptrtoint' and isinstance(D[v[1]]['ft'], Ptr) and D[v[1]]['tt'].n == 64: return (D[v[1]]['a'], D[v[1]]['ft'])
+                    return None
+                pa, pb = pti(I['a']), pti(I['b'])
+                if pa and pb:
+                    o.append('    %s = vp_ptrdiff(%s, %s);' % (d, V(pa[0], pa[1]), V(pb[0], pb[1])))
+                    return
+            a = V(I['a'], t); b = V(I['b'], t)
             if chk and isinstance(t, Int):
                 n = t.n
                 if op in ('udiv', 'urem', 'sdiv', 'srem'):
